@@ -4,6 +4,7 @@ import (
 	"archive/zip"
 	"bytes"
 	"errors"
+	"fmt"
 	"io"
 	"net/url"
 	"path"
@@ -106,7 +107,7 @@ func (r *Reader) validateMimetype(zr *zip.Reader) error {
 			}
 			defer rc.Close()
 
-			data, err := io.ReadAll(rc)
+			data, err := readPart(rc)
 			if err != nil {
 				return err
 			}
@@ -183,7 +184,7 @@ func (r *Reader) readFile(zr *zip.Reader, name string) ([]byte, error) {
 				return nil, err
 			}
 			defer rc.Close()
-			return io.ReadAll(rc)
+			return readPart(rc)
 		}
 	}
 	return nil, ErrMissingContent
@@ -343,4 +344,20 @@ func (r *Reader) getZipReader() *zip.Reader {
 		return &r.zr.Reader
 	}
 	return r.zrReader
+}
+
+// maxPartSize bounds the uncompressed size of one archive member that is read into memory: a
+// member of a few hundred kilobytes can inflate to gigabytes.
+var maxPartSize int64 = 256 << 20
+
+// readPart reads one archive member, refusing members larger than maxPartSize.
+func readPart(r io.Reader) ([]byte, error) {
+	data, err := io.ReadAll(io.LimitReader(r, maxPartSize+1))
+	if err != nil {
+		return nil, err
+	}
+	if int64(len(data)) > maxPartSize {
+		return nil, fmt.Errorf("archive member larger than %d bytes", maxPartSize)
+	}
+	return data, nil
 }
